@@ -20,7 +20,10 @@ type c17Item struct {
 type c17Case struct {
 	Items []c17Item
 	Width float64
-	Kind  string
+	// Tune: the package tunables Tolerance, DemeritsLine, DemeritsFlagged, DemeritsFitness set for this
+	// case (nil: the defaults); the reference uses the same values
+	Tune []float64 `json:",omitempty"`
+	Kind string
 }
 
 const kpInf = 1000.0
@@ -157,6 +160,24 @@ func genC17(kind string) func(r *core.Rng) any {
 // genC17Paragraph builds plain paragraphs of many words with one fine-grained glue setting and a
 // measure of three to six lines: several break sequences with nearly equal demerits and different
 // fitness classes compete, which is where the pruning of active nodes decides optimality.
+// genC17Tuning: paragraphs with many hyphenation points under other values of the package tunables.
+func genC17Tuning(r *core.Rng) any {
+	c := genC17Para(r, false).(*c17Case)
+	// turn a third of the inter-word boxes into hyphenated words
+	var items []c17Item
+	for _, it := range c.Items {
+		if it.K == 0 && it.W > 8 && r.Chance(0.35) {
+			items = append(items, c17Item{K: 0, W: it.W / 2}, c17Item{K: 2, W: 2, P: core.PickF(r, []float64{50, 50, 0, 200}), F: true}, c17Item{K: 0, W: it.W / 2})
+		} else {
+			items = append(items, it)
+		}
+	}
+	c.Items = items
+	c.Tune = []float64{core.PickF(r, []float64{1, 2, 3, 5}), core.PickF(r, []float64{1, 10, 50}), core.PickF(r, []float64{0, 100, 3000, 10000}), core.PickF(r, []float64{0, 100, 3000})}
+	c.Kind = "tuning"
+	return c
+}
+
 func genC17Paragraph(r *core.Rng) any { return genC17Para(r, false) }
 func genC17Long(r *core.Rng) any      { return genC17Para(r, true) }
 
@@ -242,6 +263,11 @@ func c17Check(ci any, o *core.Obs) {
 		return
 	}
 	p := kpParams()
+	if len(c.Tune) == 4 {
+		p.Tolerance, p.DemeritsLine, p.DemeritsFlagged, p.DemeritsFitness = c.Tune[0], c.Tune[1], c.Tune[2], c.Tune[3]
+		text.Tolerance, text.DemeritsLine, text.DemeritsFlagged, text.DemeritsFitness = c.Tune[0], c.Tune[1], c.Tune[2], c.Tune[3]
+		defer func() { text.Tolerance, text.DemeritsLine, text.DemeritsFlagged, text.DemeritsFitness = 2, 10, 100, 100 }()
+	}
 	ref := c.ref()
 	items := c.lib()
 	itemsCopy := append([]text.Item(nil), items...)
@@ -257,7 +283,7 @@ func c17Check(ci any, o *core.Obs) {
 		}
 	}
 	var res refkp.Result
-	long := c.Kind == "long"
+	long := c.Kind == "long" || c.Kind == "tuning"
 	if long {
 		// too many breakpoints to enumerate: exact dynamic programme, feasible instances only
 		f, m := refkp.SearchDP(ref, c.Width, p)
@@ -430,6 +456,7 @@ func init() {
 			{Name: "mixed", Quick: 1500, Thorough: 50000, Gen: genC17("mixed"), WitnessOnly: true, Note: "justified and ragged-right (negative stretch) spaces mixed in one paragraph, which the library itself never emits: 3e-4 infeasible / over-relaxed / sub-optimal results"},
 			{Name: "grid", Quick: 1500, Thorough: 50000, Gen: genC17("grid")},
 			{Name: "paragraph", Quick: 8000, Thorough: 200000, Gen: genC17Paragraph},
+			{Name: "tuning", Quick: 4000, Thorough: 100000, Gen: genC17Tuning, Note: "paragraphs with many flagged penalties under other values of Tolerance, DemeritsLine, DemeritsFlagged, DemeritsFitness"},
 			{Name: "long", Quick: 60000, Thorough: 600000, Gen: genC17Long},
 		},
 		NewCase:  func() any { return &c17Case{} },
